@@ -83,15 +83,15 @@ type strIter struct {
 	pos int
 }
 
-func (c *Ctx) I64(v int64) *Term   { return c.BV(64, uint64(v)) }
-func (c *Ctx) Byte(v byte) *Term   { return c.byteConsts[v] }
-func isConstTerm(v value) bool     { t, ok := v.(*Term); return ok && t.isConst() }
-func termOf(v value) *Term         { return v.(*Term) }
-func constInt(t *Term) int64       { return int64(t.val) }
-func (t *Term) constBool() bool    { return t.val == 1 }
-func (t *Term) isTrue() bool       { return t.isConst() && t.val == 1 }
-func (t *Term) isFalse() bool      { return t.isConst() && t.val == 0 }
-func (t *Term) signedVal() int64   { return signExt(t.val, t.sort.W) }
+func (c *Ctx) I64(v int64) *Term { return c.BV(64, uint64(v)) }
+func (c *Ctx) Byte(v byte) *Term { return c.byteConsts[v] }
+func isConstTerm(v value) bool   { t, ok := v.(*Term); return ok && t.isConst() }
+func termOf(v value) *Term       { return v.(*Term) }
+func constInt(t *Term) int64     { return int64(t.val) }
+func (t *Term) constBool() bool  { return t.val == 1 }
+func (t *Term) isTrue() bool     { return t.isConst() && t.val == 1 }
+func (t *Term) isFalse() bool    { return t.isConst() && t.val == 0 }
+func (t *Term) signedVal() int64 { return signExt(t.val, t.sort.W) }
 
 // basicInfo returns bit width and signedness of an integer-like basic type.
 func intInfo(T types.Type) (w int, signed bool, ok bool) {
